@@ -15,7 +15,12 @@ rule <incls> <nextcls>            Rotator.rotation from the rule table          
 marks <incls> <θ>                 Rotator.OutProfile.classifiers                           -> classifier list
 rot <θ> <x0> <y0> <x1> <y1> …     Rotator.OutProfile.cross_section on a coordinate ring    -> coordinates | area perimeter
 rules                             names of the translated rules in evaluation order
+hreset                            forget all cached `rotation` values (new objects)                                -> ok
+hsolve <extra> <cls> <slot> …     solve the arrangement `extra + 1` outer iterations with the caches left by the earlier
+                                  `hsolve`s -> final observations `;`-separated ` | ` cache of every pass (t|f|-)
 ```
+slots of `hsolve`: `P#<id>:<setting>:<cls>[:<pres>]` (`pres` = pre-processor factories of the pass' class in yield order,
+`F` rotator_factory, `i` geometry-neutral unit returning a new profile, `n` returns None; default `F`), other units as above.
 units: `P:<setting>:<cls>` (`setting` = `u`nset | `t`rue | `f`alse | `n<bits>`), `T`, `O`, `R:u`, `R:n<bits>`;
 classifier lists are comma separated, `-` is the empty list; floats are IEEE bit patterns.
 -/
@@ -60,6 +65,46 @@ def pts? : List String → Option (List (GeomRot.Pt Float))
 
 def T := Gen.C14.tables
 
+def pres? (s : String) : Option (List PreKind) :=
+  s.toList.mapM fun ch => if ch = 'F' then some .factory else if ch = 'i' then some .neutral else if ch = 'n' then some .absent else none
+
+def slot? (tok : String) : Option (Slot Float) :=
+  match tok.splitOn ":" with
+  | [p, s, c] =>
+    if p.startsWith "P#" then do
+      let i ← (p.drop 2).toString.toNat?
+      let s ← setting? s
+      pure { id := i, u := .pass s (cls? c) }
+    else (unit? tok).map fun u => { id := 0, u := u }
+  | [p, s, c, pr] =>
+    if p.startsWith "P#" then do
+      let i ← (p.drop 2).toString.toNat?
+      let s ← setting? s
+      let pr ← pres? pr
+      pure { id := i, u := .pass s (cls? c), pres := pr }
+    else none
+  | _ => (unit? tok).map fun u => { id := 0, u := u }
+
+def showCache (store : Store) (us : List (Slot Float)) : String :=
+  ",".intercalate ((us.filter (·.u.isPass)).map fun sl =>
+    match store.get sl.id with | some true => "t" | some false => "f" | none => "-")
+
+structure DState where
+  auto : Bool
+  store : Store
+
+def handleH (d : DState) (line : String) : Option (DState × String) :=
+  match toks line with
+  | ["hreset"] => some ({ d with store := [] }, "ok")
+  | "hsolve" :: n :: c :: us =>
+    match n.toNat?, us.mapM slot? with
+    | some n, some us =>
+      let r := solveH Gen.C14.flow T Gen.C14.cache d.auto n d.store
+        { before := [], cls := cls? c, turn := PyNum.nat 0 } us
+      some ({ d with store := r.2 }, "; ".intercalate (r.1.map showObs) ++ " | " ++ showCache r.2 us)
+    | _, _ => some (d, "bad-op")
+  | _ => none
+
 def handle (auto : Bool) (line : String) : Bool × String :=
   match toks line with
   | ["auto", b] => (b = "1", "ok")
@@ -87,13 +132,19 @@ def handle (auto : Bool) (line : String) : Bool × String :=
   | ["rules"] => (auto, ",".intercalate ((evalOrder T.rules).map (·.name)))
   | _ => (auto, "bad-op")
 
-partial def loop (h : IO.FS.Stream) (auto : Bool) : IO Unit := do
+partial def loop (h : IO.FS.Stream) (d : DState) : IO Unit := do
   let line ← h.getLine
   if line.isEmpty then return ()
-  let (auto', out) := handle auto (line.trimAscii.toString)
-  IO.println out
-  loop h auto'
+  let l := line.trimAscii.toString
+  match handleH d l with
+  | some (d', out) =>
+    IO.println out
+    loop h d'
+  | none =>
+    let (auto', out) := handle d.auto l
+    IO.println out
+    loop h { d with auto := auto' }
 
-def main : IO Unit := do loop (← IO.getStdin) Gen.C14.autoDefault
+def main : IO Unit := do loop (← IO.getStdin) { auto := Gen.C14.autoDefault, store := [] }
 
 end RotDriver
